@@ -131,6 +131,19 @@ def check_sites(ctx):
 
 # ================================================================== executing one case (in-process and in the worker)
 _DOCS = {}
+# hang budget of one run: every hang costs one alarm period; code that is broken badly enough to hang on many inputs (e.g. a decoder that
+# no longer rejects truncated messages in lenient mode) must not turn the run into a time-out. After 8 hangs the alarm period shrinks to 1 s,
+# after 60 the remaining calls are skipped with the same token under every schedule (so no difference is invented); the hangs seen up
+# to then are compared like any other result.
+_HANGS = [0]
+
+
+def _alarm_s():
+    return 6 if _HANGS[0] < 8 else 1
+
+
+def _budget_left():
+    return _HANGS[0] < 60
 
 
 class Hang(BaseException):
@@ -183,6 +196,8 @@ def run_op(case, load_flag, call_flag, hist=""):
     """canonical result string of one case under a schedule; `hist` names the call history the objects belong to"""
     import codec_oracles as O
     from odxgen import values as V
+    if not _budget_left():
+        return "(skipped: hang budget of this run exhausted)"
     old = signal.signal(signal.SIGALRM, _alarm)
     keep = get_flag()
     try:
@@ -192,19 +207,21 @@ def run_op(case, load_flag, call_flag, hist=""):
             if obj is None:
                 return "load-error:" + str(err)[:60]
             set_flag(call_flag)
-            signal.alarm(6)
+            signal.alarm(_alarm_s())
             if op == "encode":
                 r = O.impl_encode(obj, V.from_jsonable(case["value"]), bytes.fromhex(case["trig"]) if case.get("trig") is not None else None)
                 return O.reply_encode(r) if r.ok else "(err " + r.status + ")"
-            r = O.impl_decode(obj, bytes.fromhex(case["pdu"]), timeout=5)
+            r = O.impl_decode(obj, bytes.fromhex(case["pdu"]), timeout=max(1, _alarm_s() - 1))
             if r.ok:
                 return O.reply_decode(r)
+            if r.status == "hang":
+                _HANGS[0] += 1
             return "(err " + r.status + ")"
         if op == "atomic":
             import atomic_lib as A
             c = dict(case["case"], strict=call_flag)
             set_flag(call_flag)
-            signal.alarm(6)
+            signal.alarm(_alarm_s())
             r, exc = A.run_case(c)
             return r if exc is None or not r.startswith("(err foreign") else f"(err foreign:{exc})"
         if op == "scenario":
@@ -219,13 +236,14 @@ def run_op(case, load_flag, call_flag, hist=""):
             if cm is None:
                 return "build-error:" + str(berr)
             set_flag(call_flag)
-            signal.alarm(6)
+            signal.alarm(_alarm_s())
             r = CL.call(cm, case["dir"], case["v"])
             return "ok " + json.dumps(r[1]) if r[0] == "ok" else "(err " + str(r[1]) + ")"
         if op == "somersault":
             return run_somersault(case, load_flag, call_flag, hist)
         return "bad-op"
     except Hang:
+        _HANGS[0] += 1
         return "(err hang)"
     except Exception as e:  # noqa
         return "(err " + classify(e) + ")"
@@ -395,7 +413,7 @@ def run_scenario(case, load_flag, call_flag, hist=""):
     dl = db.diag_layers[0]
     entry, args = case["entry"], [bytes.fromhex(a) if isinstance(a, str) else a for a in case["args"]]
     set_flag(call_flag)
-    signal.alarm(6)
+    signal.alarm(_alarm_s())
     with warnings.catch_warnings():
         warnings.simplefilter("ignore")
         from odxgen import values as V
@@ -448,7 +466,7 @@ def run_somersault(case, load_flag, call_flag, hist=""):
     dl = db.diag_layers[case["layer"]]
     msg = bytes.fromhex(case["pdu"])
     set_flag(call_flag)
-    signal.alarm(6)
+    signal.alarm(_alarm_s())
     with warnings.catch_warnings():
         warnings.simplefilter("ignore")
         e = case["entry"]
